@@ -45,6 +45,20 @@
 //! slab itself (`router().index` + `router().embeddings`), each blob chunk must equal the original
 //! (bit-exact: all vectors are of the exactly stored sparse class). A load that panics is a violation.
 //!
+//! value-text part: String scalars (and pointers, field names, Bytes scalars, relational String /
+//! Bytes / Json cells, graph String properties) are arbitrary texts, so stores are filled with texts
+//! of every shape a format could mistake for something else - texts that start with or contain a
+//! marker (`bytes:`, `base64:`, `hex:`, `0x`, `ptr:`, `null`, ...) followed by nothing / decimal
+//! digits / even- or odd-length hex / base64, the text forms the formats themselves derive from
+//! values of OTHER kinds (`bytes:<len>`, `bytes:<hex>`, the hex or Debug form of a byte string,
+//! numbers, booleans, JSON), literals (`null`, `true`, `NaN`, `-0`, numbers beyond i64), leading /
+//! trailing whitespace, NUL, BOM, composed vs decomposed characters, escape sequences, lengths on
+//! both sides of 2^7 / 2^8 / 2^12 / 2^16 - in every key class, and every reloaded store (file, file
+//! uncompressed, bytes into a fresh store, SlabRouter bytes, quantising format default and balanced)
+//! must return every field with the SAME KIND AND CONTENT (typed comparison per field; the only
+//! tolerated difference is the known finding of the quantising format, a Bytes scalar that comes
+//! back as exactly the string `bytes:<len>`).
+//!
 //! crash part (in this binary): child modes used by the strace kill-injection leg
 //! (`legs_c07.py`), which kills a real save at every write/open/rename syscall and then loads
 //! the destination path; plus an in-process enumeration of every prefix of the temporary file.
@@ -728,8 +742,11 @@ fn compare(path: &str, orig: &Obs, got: &Obs, kinds: &BTreeMap<String, VecKind>,
     // the configured-router part counts separately, so that its observations cannot satisfy the
     // floors of the store-level part
     let cfg = path.starts_with("cfg-");
+    // at most 6 reports per case as before, but a failure class that was not reported yet is never
+    // crowded out by repetitions of another one (e.g. of a known finding)
     let mut push = |sig: String, d: String| {
-        if out.len() < 6 {
+        let same = out.iter().filter(|(s, _): &&(String, String)| *s == sig).count();
+        if (out.len() < 6 || same == 0) && out.len() < 24 {
             out.push((sig, d));
         }
     };
@@ -753,6 +770,9 @@ fn compare(path: &str, orig: &Obs, got: &Obs, kinds: &BTreeMap<String, VecKind>,
                                 r.count("quantising_vector_payloads_not_judged", 1);
                                 continue;
                             }
+                            // quantising format, Bytes scalar: the known finding is exactly "comes back as
+                            // the string bytes:<len>"; anything else is another failure class
+                            let kind = if quantising && kind == "y" && **vb != format!("s:{:?}", format!("bytes:{}", va.len().saturating_sub(2) / 2)) { "y-not-as-the-length-placeholder".to_string() } else { kind };
                             kinds_diff.insert(format!("{}({}->{})", kind, trunc(va, 40), trunc(vb, 40)));
                         }
                         None => {
@@ -1921,6 +1941,408 @@ fn capacity_case(case_seed: u64, r: &mut Report, args: &Args, default_store: boo
 }
 
 // -------------------------------------------------------------------------------------------
+// value-text part: strings are arbitrary texts
+// -------------------------------------------------------------------------------------------
+
+/// Prefixes a storage format might use (or does use) to mark a value of another kind inside a text.
+const TEXT_MARKERS: [&str; 44] = [
+    "bytes:", "bytes:", "bytes", "Bytes(", "b\"", "base64:", "b64:", "hex:", "0x", "\\x", "str:", "string:", "s:", "y:", "ptr:", "pointer:", "p:", "int:", "i:", "float:", "f:", "bool:", "null:", "vec:", "vector:", "sparse:", "json:", "node:", "edge:",
+    "emb:", "table:", "_blob:", "sha256:", "tt:", "raw:", "zstd:", "\u{feff}", "data:;base64,", "{\"", "[", "\"", "$", "@", "#",
+];
+
+/// Texts that read like a value of another kind.
+const TEXT_LITERALS: [&str; 40] = [
+    "null", "NULL", "Null", "None", "nil", "~", "true", "false", "True", "NaN", "nan", "inf", "-inf", "Infinity", "0", "-0", "1", "-1", "42", "007", "1e5", "1.0", "0.1", "-0.0", "9223372036854775807", "9223372036854775808", "-9223372036854775809",
+    "18446744073709551616", "[]", "{}", "[1,2]", "{\"a\":1}", "\"\"", "''", "()", "Null()", "String(\"a\")", "Bytes([1, 2])", "Int(1)", "Scalar(Null)",
+];
+
+/// Whitespace, NUL, BOM, (de)composed characters, case-folding traps, invisible characters.
+const TEXT_EDGES: [&str; 30] = [
+    " ", " x", "x ", " x ", "\tx", "x\n", "\r\n", "\n", "x\r", "\u{a0}x", "x\0", "\0", "\0\0x", "\0x\0", "\u{feff}x", "x\u{feff}", "e\u{301}", "\u{e9}", "\u{fb01}", "\u{130}", "\u{df}", "\u{200b}", "a\u{200b}b", "\u{202e}abc", "\u{2028}", "\u{85}", "\u{1f600}",
+    "\u{10ffff}", "\u{fffd}", "\u{d7ff}\u{e000}",
+];
+
+/// Escape sequences and the separators of common text encodings (also of this harness's own view).
+const TEXT_ESCAPES: [&str; 24] = [
+    "\\n", "\\0", "\\\\", "\\", "a\\", "\\u0041", "\\u{41}", "\\x41", "%20", "%00", "%", "&amp;", "&#0;", "\"", "a\"b", "a'b", "a;b=c", "=", ";", ",", "a,b", "a\tb", "${x}", "{{x}}",
+];
+
+fn hex_upper(b: &[u8]) -> String {
+    hex(b).to_uppercase()
+}
+
+/// What follows a marker: nothing, a decimal number (a length?), hex of even / odd length in either
+/// case, base64-looking text, hex with one foreign character, arbitrary text.
+fn marker_payload(rng: &mut Rng) -> String {
+    const B64: &[u8] = b"ABCDEFGHIJKLMNOPQRSTUVWXYZabcdefghijklmnopqrstuvwxyz0123456789+/";
+    match rng.below(10) {
+        0 => String::new(),
+        1 => {
+            let m = *rng.pick(&[10usize, 100, 1_000, 100_000]);
+            format!("{}", rng.below(m))
+        }
+        2 | 3 => {
+            let m = *rng.pick(&[3usize, 9, 33]);
+            let n = rng.below(m);
+            hex(&rng.bytes(n))
+        }
+        4 => {
+            let n = rng.below(9);
+            hex_upper(&rng.bytes(n))
+        }
+        5 => {
+            let n = 1 + rng.below(8);
+            let mut h = hex(&rng.bytes(n));
+            h.pop();
+            h
+        }
+        6 => {
+            let n = 4 * rng.below(6);
+            let mut t: String = (0..n).map(|_| *rng.pick(B64) as char).collect();
+            if n > 0 && rng.bool() {
+                t.pop();
+                t.push('=');
+            }
+            t
+        }
+        7 => {
+            let n = 1 + rng.below(6);
+            let mut h = hex(&rng.bytes(n));
+            let at = rng.below(h.len() + 1);
+            h.insert(at, *rng.pick(&[' ', 'g', ':', '-', '\n', '\u{e9}']));
+            h
+        }
+        8 => format!(" {}", rng.below(100)),
+        _ => gen_string(rng),
+    }
+}
+
+/// A text of a random class; the class name is returned for the evidence counters.
+fn hostile_text(rng: &mut Rng, long_ok: bool) -> (String, &'static str) {
+    match rng.below(16) {
+        0..=3 => (format!("{}{}", *rng.pick(&TEXT_MARKERS), marker_payload(rng)), "marker"),
+        4 => (format!("{}{}{}", *rng.pick(&["total ", "x", " ", "_", "\0", "a:"]), *rng.pick(&TEXT_MARKERS), marker_payload(rng)), "marker-inside"),
+        5 | 6 => {
+            // the text forms storage formats derive from values of other kinds
+            let m = *rng.pick(&[4usize, 16, 130]);
+            let n = rng.below(m);
+            let b = rng.bytes(n);
+            let t = match rng.below(9) {
+                0 | 1 => format!("bytes:{}", b.len()),
+                2 | 3 => format!("bytes:{}", hex(&b)),
+                4 => hex(&b),
+                5 => format!("{:?}", b),
+                6 => format!("0x{}", hex_upper(&b)),
+                7 => format!("{:?}", ScalarValue::Bytes(b)),
+                _ => String::from_utf8_lossy(&b).into_owned(),
+            };
+            (t, "derived-from-another-kind")
+        }
+        7 | 8 => ((*rng.pick(&TEXT_LITERALS)).to_string(), "literal"),
+        9 | 10 => {
+            let e = *rng.pick(&TEXT_EDGES);
+            (if rng.chance(1, 3) { format!("{}{}", e, gen_string(rng)) } else { e.to_string() }, "edge")
+        }
+        11 => {
+            let e = *rng.pick(&TEXT_ESCAPES);
+            (if rng.chance(1, 3) { format!("{}{}{}", gen_string(rng), e, rng.below(10)) } else { e.to_string() }, "escape")
+        }
+        12 if long_ok => {
+            let n = *rng.pick(&[127usize, 128, 129, 255, 256, 257, 4_095, 4_096, 16_383, 16_384, 65_535, 65_536, 65_537]);
+            let unit = *rng.pick(&["x", "\u{e9}", "\u{1f600}", "\0"]);
+            (unit.repeat(n.div_ceil(unit.len())), "length-boundary")
+        }
+        _ => (gen_string(rng), "plain"),
+    }
+}
+
+/// One field of a raw entry, typed: (kind, content). Content renders floats by their bits and
+/// texts through `Debug`, so equal renderings mean equal values.
+fn typed_fields(d: &TensorData) -> BTreeMap<String, (&'static str, String)> {
+    d.fields_iter()
+        .map(|(name, v)| {
+            let kind = match v {
+                TensorValue::Scalar(ScalarValue::Null) => "null",
+                TensorValue::Scalar(ScalarValue::Bool(_)) => "bool",
+                TensorValue::Scalar(ScalarValue::Int(_)) => "int",
+                TensorValue::Scalar(ScalarValue::Float(_)) => "float",
+                TensorValue::Scalar(ScalarValue::String(_)) => "string",
+                TensorValue::Scalar(ScalarValue::Bytes(_)) => "bytes",
+                TensorValue::Vector(_) => "vector",
+                TensorValue::Sparse(_) => "sparse",
+                TensorValue::Pointer(_) => "pointer",
+                TensorValue::Pointers(_) => "pointers",
+            };
+            (name.clone(), (kind, canon_value(v)))
+        })
+        .collect()
+}
+
+#[derive(Default, PartialEq, Clone)]
+struct TextObs {
+    /// key -> field -> (kind, content); `None` = listed by scan but not readable
+    entries: BTreeMap<String, Option<BTreeMap<String, (&'static str, String)>>>,
+    slab_tables: BTreeMap<String, (String, Vec<String>)>,
+    /// graph nodes as the graph engine reads them; the flag: some property holds a byte string
+    nodes: BTreeMap<u64, (String, bool)>,
+}
+
+fn pval_has_bytes(v: &PropertyValue) -> bool {
+    match v {
+        PropertyValue::Bytes(_) => true,
+        PropertyValue::List(l) => l.iter().any(pval_has_bytes),
+        PropertyValue::Map(m) => m.values().any(pval_has_bytes),
+        _ => false,
+    }
+}
+
+fn observe_text(x: &SlabRouter, store: Option<&TensorStore>) -> TextObs {
+    let mut o = TextObs::default();
+    for k in x.scan("") {
+        let e = x.get(&k).ok().map(|d| typed_fields(&d));
+        o.entries.insert(k, e);
+    }
+    o.slab_tables = observe_relations(&x.relations).0;
+    if let Some(s) = store {
+        let g = GraphEngine::with_store(s.clone());
+        for n in g.all_nodes() {
+            let mut ps: Vec<String> = n.properties.iter().map(|(k, v)| format!("{:?}={}", k, canon_pval(v))).collect();
+            ps.sort();
+            o.nodes.insert(n.id, (format!("{:?} {}", n.labels, ps.join(",")), n.properties.values().any(pval_has_bytes)));
+        }
+    }
+    o
+}
+
+fn valuetext_case(case_seed: u64, r: &mut Report, args: &Args) {
+    let mut rng = Rng::new(case_seed);
+    let n = *rng.pick(&[1usize, 2, 5, 12, 30, args.by_tier(30, 200)]);
+    let store = TensorStore::new();
+    let mut classes: BTreeMap<&'static str, u64> = BTreeMap::new();
+    let (mut n_strings, mut n_bytes, mut n_pointers, mut n_hostile_names) = (0u64, 0u64, 0u64, 0u64);
+    let text = |rng: &mut Rng, classes: &mut BTreeMap<&'static str, u64>, long_ok: bool| {
+        let (t, class) = hostile_text(rng, long_ok);
+        *classes.entry(class).or_default() += 1;
+        t
+    };
+    for i in 0..n {
+        let prefix = *rng.pick(&["k:", "k:", "", "meta:", "user/\u{e9}:", "emb:", "_cache:", "node:", "edge:", "table:", "_blob:meta:", "zz:"]);
+        let key = format!("{}{}", prefix, i);
+        let mut d = TensorData::new();
+        d.set("_wid", TensorValue::Scalar(ScalarValue::Int(i as i64)));
+        for f in 0..1 + rng.below(6) {
+            // field names are texts too (never `_embedding`, which `emb:` keys treat as the slab vector)
+            let name = if rng.chance(1, 8) {
+                let t = text(&mut rng, &mut classes, false);
+                if t == "_embedding" || t == "_wid" {
+                    format!("f{}", f)
+                } else {
+                    n_hostile_names += 1;
+                    t
+                }
+            } else {
+                format!("f{}", f)
+            };
+            let v = match rng.below(12) {
+                0..=6 => {
+                    n_strings += 1;
+                    TensorValue::Scalar(ScalarValue::String(text(&mut rng, &mut classes, true)))
+                }
+                7 | 8 => {
+                    // byte strings that are texts, that are not, and plain ones
+                    n_bytes += 1;
+                    let b = match rng.below(5) {
+                        0 | 1 => text(&mut rng, &mut classes, false).into_bytes(),
+                        2 => rng.pick(&[&[0xffu8, 0xfe][..], &[0xc3][..], &[0xed, 0xa0, 0x80][..], &[0x00][..], &[][..]]).to_vec(),
+                        _ => {
+                            let k = rng.below(40);
+                            rng.bytes(k)
+                        }
+                    };
+                    TensorValue::Scalar(ScalarValue::Bytes(b))
+                }
+                9 => {
+                    n_pointers += 1;
+                    TensorValue::Pointer(text(&mut rng, &mut classes, false))
+                }
+                10 => {
+                    n_pointers += 1;
+                    TensorValue::Pointers((0..rng.below(4)).map(|_| text(&mut rng, &mut classes, false)).collect())
+                }
+                _ => TensorValue::Scalar(gen_scalar(&mut rng)),
+            };
+            d.set(name, v);
+        }
+        let _ = store.put(key, d);
+    }
+    // texts in relational cells (String / Bytes / Json) ...
+    let with_table = rng.chance(1, 2);
+    if with_table {
+        use tensor_store::ColumnType;
+        let rel = &store.router().relations;
+        let schema = TableSchema::new(vec![ColumnDef::new("id", ColumnType::Int, false), ColumnDef::new("s", ColumnType::String, true), ColumnDef::new("y", ColumnType::Bytes, true), ColumnDef::new("j", ColumnType::Json, true)]);
+        if rel.create_table("vt", schema).is_ok() {
+            for i in 0..1 + rng.below(12) {
+                let row = vec![
+                    ColumnValue::Int(i as i64),
+                    if rng.chance(4, 5) { ColumnValue::String(text(&mut rng, &mut classes, true)) } else { ColumnValue::Null },
+                    if rng.bool() { ColumnValue::Bytes(text(&mut rng, &mut classes, false).into_bytes()) } else { ColumnValue::Null },
+                    if rng.bool() { ColumnValue::Json(text(&mut rng, &mut classes, false)) } else { ColumnValue::Null },
+                ];
+                let _ = rel.insert("vt", row);
+            }
+        }
+    }
+    // ... and in graph properties (an engine may refuse a text: an error return, nothing is stored)
+    let with_graph = rng.chance(1, 2);
+    if with_graph {
+        let g = GraphEngine::with_store(store.clone());
+        for i in 0..1 + rng.below(6) {
+            let mut p = HashMap::new();
+            p.insert("name".to_string(), PropertyValue::String(text(&mut rng, &mut classes, false)));
+            if rng.bool() {
+                p.insert("raw".to_string(), PropertyValue::Bytes(text(&mut rng, &mut classes, false).into_bytes()));
+            }
+            if rng.chance(1, 3) {
+                p.insert("l".to_string(), PropertyValue::List(vec![PropertyValue::String(text(&mut rng, &mut classes, false)), PropertyValue::Int(i as i64)]));
+            }
+            let _ = g.create_node("T", p);
+        }
+    }
+    let orig = observe_text(store.router(), Some(&store));
+    let n_nodes = orig.nodes.len();
+    let description = json!({"keys": orig.entries.len(), "string_scalars": n_strings, "bytes_scalars": n_bytes, "pointer_fields": n_pointers, "text_field_names": n_hostile_names, "texts_by_class": classes, "relational_text_table": with_table, "graph_nodes_with_text_properties": n_nodes});
+    let replay = json!({"part": "value-text", "case_seed": case_seed});
+    let scratch = args.scratch_dir("c07v");
+    // `quantising`: the format that stores key-addressed entries only and whose one known loss is a
+    // Bytes scalar coming back as the string bytes:<len>
+    let judge = |path: &str, got: Result<TextObs, String>, quantising: bool, with_graph_reads: bool, r: &mut Report| {
+        r.count(&format!("roundtrips_{}", path), 1);
+        let g = match got {
+            Err(e) => {
+                r.violation(load_failure_signature(path, &e), format!("{} (content {})", e, description), replay.clone());
+                return;
+            }
+            Ok(g) => g,
+        };
+        // per case and path: every failure class once, at most 8 reports
+        let mut seen: Vec<String> = Vec::new();
+        let mut viol = |sig: String, d: String, r: &mut Report| {
+            if !seen.contains(&sig) && seen.len() < 8 {
+                seen.push(sig.clone());
+                r.violation(sig, format!("{} (content {})", d, description), replay.clone());
+            }
+        };
+        for (k, fields) in &orig.entries {
+            let Some(fields) = fields else { continue };
+            match g.entries.get(k) {
+                None => viol(format!("roundtrip:{}:key-missing", path), format!("key {:?} missing after the round trip", k), r),
+                Some(None) => viol(format!("roundtrip:{}:listed-key-not-readable", path), format!("key {:?} is listed by scan(\"\") after the round trip but get() does not find it", k), r),
+                Some(Some(gf)) => {
+                    for (name, (kind, content)) in fields {
+                        match *kind {
+                            "string" => r.count(if quantising { "vt_quantising_string_scalars_compared" } else { "vt_string_scalars_compared" }, 1),
+                            "bytes" => r.count("vt_bytes_scalars_compared", 1),
+                            "pointer" | "pointers" => r.count("vt_pointer_fields_compared", 1),
+                            _ => {}
+                        }
+                        match gf.get(name) {
+                            None => viol(format!("roundtrip:{}:{}-field-missing", path, kind), format!("key {:?}: field {:?} ({}) is gone after the round trip", k, name, trunc(content, 80)), r),
+                            Some((gk, gc)) if gk == kind && gc == content => {}
+                            Some((gk, gc)) if gk == kind => viol(format!("roundtrip:{}:{}-content-differs", path, kind), format!("key {:?} field {:?}: saved {}, loaded {}", k, name, trunc(content, 120), trunc(gc, 120)), r),
+                            Some((gk, gc)) => {
+                                // the known finding, and only it: Bytes -> String("bytes:<len>")
+                                let placeholder = format!("s:{:?}", format!("bytes:{}", content.len().saturating_sub(2) / 2));
+                                if quantising && *kind == "bytes" && *gk == "string" && *gc == placeholder {
+                                    r.count("vt_quantising_bytes_scalars_seen_as_length_placeholder", 1);
+                                    viol("roundtrip:quantising:field-differs:y".to_string(), format!("key {:?} field {:?}: saved {}, loaded {}", k, name, trunc(content, 120), trunc(gc, 120)), r);
+                                } else {
+                                    viol(format!("roundtrip:{}:{}-comes-back-as-{}", path, kind, gk), format!("key {:?} field {:?}: saved {}, loaded {}", k, name, trunc(content, 120), trunc(gc, 120)), r);
+                                }
+                            }
+                        }
+                    }
+                    for name in gf.keys() {
+                        if !fields.contains_key(name) {
+                            viol(format!("roundtrip:{}:field-added", path), format!("key {:?}: field {:?} appeared after the round trip", k, name), r);
+                        }
+                    }
+                }
+            }
+        }
+        for k in g.entries.keys() {
+            if !orig.entries.contains_key(k) {
+                viol(format!("roundtrip:{}:key-added", path), format!("key {:?} appeared after the round trip", k), r);
+            }
+        }
+        if !quantising {
+            // (the quantising format does not store tables: known finding of the roundtrip part)
+            r.count("vt_relational_text_rows_compared", orig.slab_tables.values().map(|t| t.1.len() as u64).sum());
+            if orig.slab_tables != g.slab_tables {
+                let d = orig.slab_tables.iter().find(|(t, v)| g.slab_tables.get(*t) != Some(v)).map(|(t, v)| format!("table {}: {:?} vs {:?}", t, v, g.slab_tables.get(t)));
+                viol(format!("roundtrip:{}:relational-text-cells-differ", path), trunc(&d.unwrap_or_default(), 500), r);
+            }
+        }
+        if with_graph_reads {
+            // quantising format: a node with a byte-string property is judged field by field above
+            // (its one known loss must not be reported a second time under another name)
+            let judged = |n: &(&u64, &(String, bool))| !(quantising && n.1 .1);
+            r.count("vt_graph_nodes_with_text_compared", orig.nodes.iter().filter(judged).count() as u64);
+            if let Some((id, v)) = orig.nodes.iter().filter(judged).find(|(id, v)| g.nodes.get(*id).map(|x| &x.0) != Some(&v.0)) {
+                viol(format!("roundtrip:{}:graph-text-properties-differ", path), format!("node {}: {} vs {:?}", id, trunc(&v.0, 200), g.nodes.get(id).map(|x| trunc(&x.0, 200))), r);
+            } else if g.nodes.keys().any(|id| !orig.nodes.contains_key(id)) {
+                viol(format!("roundtrip:{}:graph-node-added", path), format!("{} nodes vs {}", orig.nodes.len(), g.nodes.len()), r);
+            }
+        }
+    };
+    let p1 = scratch.join("v1.snap");
+    let got = no_panic("load_snapshot", || store.save_snapshot(&p1).map_err(|e| format!("save: {}", e)).and_then(|_| TensorStore::load_snapshot(&p1).map_err(|e| format!("load: {}", e))).map(|s| observe_text(s.router(), Some(&s))));
+    judge("vt-file", got, false, true, r);
+    let p2 = scratch.join("v2.snap");
+    let got = no_panic("load_snapshot (uncompressed)", || tensor_store::snapshot::save_v3_uncompressed(store.router(), &p2).map_err(|e| format!("save: {}", e)).and_then(|_| TensorStore::load_snapshot(&p2).map_err(|e| format!("load: {}", e))).map(|s| observe_text(s.router(), Some(&s))));
+    judge("vt-file-uncompressed", got, false, true, r);
+    match store.snapshot_bytes() {
+        Err(e) => r.violation("roundtrip:vt-bytes:snapshot-error", format!("{} (content {})", e, description), replay.clone()),
+        Ok(bytes) => {
+            let got = no_panic("restore_from_bytes", || {
+                let fresh = TensorStore::new();
+                fresh.restore_from_bytes(&bytes).map_err(|e| format!("restore: {}", e)).map(|_| observe_text(fresh.router(), Some(&fresh)))
+            });
+            judge("vt-bytes-fresh", got, false, true, r);
+            let got = no_panic("SlabRouter::from_bytes", || SlabRouter::from_bytes(&bytes).map_err(|e| format!("from_bytes: {}", e)).map(|x| observe_text(&x, None)));
+            judge("vt-router-bytes", got, false, false, r);
+        }
+    }
+    for (name, cfg) in [("quantising-default", tensor_compress::CompressionConfig::default()), ("quantising-balanced", tensor_compress::CompressionConfig::balanced(384))] {
+        let p3 = scratch.join("v3.snap");
+        match no_panic("save_snapshot_compressed", || store.save_snapshot_compressed(&p3, cfg).map_err(|e| format!("save: {}", e))) {
+            Err(e) if e.starts_with("PANIC") => r.violation("roundtrip:quantising:save-panics", format!("{} (content {})", e, description), replay.clone()),
+            // a refused save is an error return, not a wrong snapshot
+            Err(_) => r.count("vt_quantising_save_refused", 1),
+            Ok(()) => {
+                let got = no_panic("load_snapshot_compressed", || TensorStore::load_snapshot_compressed(&p3).map_err(|e| format!("load: {}", e)).map(|s| observe_text(s.router(), Some(&s))));
+                r.count(&format!("roundtrips_vt-{}", name), 1);
+                judge("quantising", got, true, true, r);
+            }
+        }
+    }
+    if observe_text(store.router(), Some(&store)) != orig {
+        r.violation("roundtrip:vt:saving-changed-the-original", format!("the store reads differently after it was saved (content {})", description), replay.clone());
+    }
+    r.count("vt_cases", 1);
+    for (class, k) in &classes {
+        r.count(&format!("vt_texts_{}", class), *k);
+    }
+    r.count("vt_text_field_names", n_hostile_names);
+    let nontrivial = n_strings >= 1;
+    r.eval(hash_str(&format!("{:?}", orig.entries)) ^ case_seed, nontrivial);
+    if r.want_sample() && nontrivial && case_seed % 8 == 0 {
+        let first: Vec<String> = orig.entries.iter().take(3).map(|(k, f)| format!("{:?}: {}", k, trunc(&format!("{:?}", f), 160))).collect();
+        r.sample(json!({"part": "value-text", "content": description, "first_entries": first}));
+    }
+}
+
+// -------------------------------------------------------------------------------------------
 // crash part
 // -------------------------------------------------------------------------------------------
 
@@ -2204,6 +2626,7 @@ fn main() {
             "roundtrip-big" => roundtrip_case(s, &mut total, &args, true),
             "cfg-router" => router_case(s, &mut total, &args),
             "keyspace" => keyspace_case(s, &mut total, &args),
+            "value-text" => valuetext_case(s, &mut total, &args),
             "slab-capacity" => capacity_case(s, &mut total, &args, rp["default_store"].as_bool().unwrap_or(false)),
             _ => roundtrip_case(s, &mut total, &args, false),
         }
@@ -2223,6 +2646,11 @@ fn main() {
         if want("keyspace") {
             let a2 = args.clone();
             let rep = par_cases(args.threads, args.seed ^ 0x6B5, args.by_tier(320, 12_000), args.budget(8, 180), move |_i, s, r| keyspace_case(s, r, &a2));
+            total.merge(rep);
+        }
+        if want("value-text") {
+            let a2 = args.clone();
+            let rep = par_cases(args.threads, args.seed ^ 0x7E87, args.by_tier(400, 20_000), args.budget(6, 150), move |_i, s, r| valuetext_case(s, r, &a2));
             total.merge(rep);
         }
         if want("slab-capacity") {
@@ -2250,7 +2678,7 @@ fn main() {
     }
     let meta = Meta {
         property: "C07",
-        rule: "roundtrip case = store of 0..200 (a few of 3 000 / 30 000) raw entries over all value kinds and key classes + relational tables (Int/Float/String/Bool/Bytes, nullable, optional index) + graph nodes/edges with properties + vector-engine embeddings (dims 2-255 and 384) + blob-log chunks, saved and reloaded through 9 paths (file, v3 uncompressed, v3 default/zstd, bytes->fresh store, bytes->dirty store, bytes->store with a Bloom filter, SlabRouter bytes, quantising format default and balanced) and observed through store scan/get AND RelationalEngine/GraphEngine/VectorEngine reads; temp-prefix case = destination A + every (small) or sampled prefix of B's bytes as the sibling temp file, then the renamed file, plus a real save over a longer leftover temp file; resnapshot case = image, 1-3 changes of random kind (relational rows through the slab, new table, clear(), graph node, raw put, delete rows), image again after each change, restored and compared with the live store. Distinct = hash of key set x seed; non-trivial = at least 3 keys (round trip) / A and B differ (crash). The relational slab (router().relations) of a store is, in a third of the stores, additionally given tables with a random multi-step history (create_index on the empty table / between / after the rows and on nullable or later-added Int columns, inserts with NULLs, batch inserts, deletes, update_row and restore_row on indexed columns, restore_deleted_row, add/drop column, drop table) and is observed through all its public reads: schema, live rows, row_count and every non-empty answer of index_lookup / index_range (4 operators) / index_between over every Int column for the keys {i64::MIN,-3,-1,0,1,2,7,15,42,i64::MAX} + the values in the rows; original and reloaded slab must answer alike. cfg-router case = SlabRouter::with_config with embedding_dim from {1..600, dense around 128/129 and 255/256/257} (cache capacity and graph merge threshold varied too) holding 1..40 (thorough ..300) emb: entries whose slab vector is dense-random / dense-low-rank / dense with NaN, inf, -0.0, subnormals / sparse / exactly half zero / one more than half non-zero / all-zero / one-hot, rewritten, replaced by vectors of another dimension, deleted and put again, plus other keys, a relational slab history, graph slab edges and blob chunks; round-tripped through to_bytes/from_bytes, save_to_file/load_from_file, save_v3_uncompressed/snapshot::load and snapshot()/restore(); observed through scan/get, the relational slab reads, graph slab and blob log; distinct = hash of (dimension, class of every slab vector) x seed, non-trivial = at least one slab vector. keyspace case = TensorStore::new() with 1..150 (thorough ..2 000) keys of arbitrary shape - the empty key, first character of any UTF-8 class (any ASCII byte, U+0080..U+00FF, 2-/3-/4-byte characters, class boundaries) bare or behind emb: / _cache: / node: / edge: / table: / _blob:meta:, tails from a small per-case pool so that keys share prefixes, some 40-440 characters long - overwritten, deleted, put again; reloaded through 9 paths (file, file + Bloom filter, SlabRouter::load_from_file, v3 uncompressed, bytes->fresh store, bytes->Bloom-filter store, SlabRouter::from_bytes, snapshot()/restore(), quantising format) and asked ALL public key reads: scan(\"\"), get + exists of up to 300 present keys and of absent keys (one character more / less, deleted keys, fresh random keys), scan(prefix) + scan_count(prefix) for the 1-/2-/3-character prefixes, class prefixes and whole keys of up to 40 keys and for 34 one-character probes of every UTF-8 class; every answer must equal the original's (quantising format: all but the get values); distinct = hash of the key listing x seed, non-trivial = at least one key with a non-ASCII first character. The same reads (16 keys, exists / scan / scan_count) are part of every observation of the roundtrip, cfg-router, temp-prefix and resnapshot cases, whose raw-key generators include such keys. slab-capacity case = SlabRouter::with_config with embedding_dim from {384..12 000}, blob segment size {48 B, 256 B, 1 KiB, 64 MiB} and cache capacity {2, 8, 64, 10 000} (case 0 of every run: TensorStore::new()) filled with k x chunk + d slab vectors, k in {0,1,2,(3)} and d in {-1,0,1,2,<40,<chunk/2} where chunk = the number of vectors per 4Mi-float chunk (10 922 at dimension 384), a few more first and then deleted, late keys reusing the freed slots, in-place rewrites, emb: keys without a slab vector, up to 40 _cache: keys, plain keys and up to 25 blob chunks of 1..1 400 bytes; round-tripped through to_bytes/from_bytes, save_to_file/load_from_file, save_v3_uncompressed/snapshot::load, snapshot()/restore() (store: save_snapshot/load_snapshot, load_snapshot_with_bloom_filter, snapshot_bytes/restore_from_bytes); compared per key: the fields, the vector read from the embedding slab itself (router().index.get + router().embeddings.get; bit-exact), and the blob chunks; a load that panics is a violation (load-panics); distinct = (dimension, vectors, holder) x seed, non-trivial = the original slab had grown beyond the capacity of a fresh one.",
+        rule: "roundtrip case = store of 0..200 (a few of 3 000 / 30 000) raw entries over all value kinds and key classes + relational tables (Int/Float/String/Bool/Bytes, nullable, optional index) + graph nodes/edges with properties + vector-engine embeddings (dims 2-255 and 384) + blob-log chunks, saved and reloaded through 9 paths (file, v3 uncompressed, v3 default/zstd, bytes->fresh store, bytes->dirty store, bytes->store with a Bloom filter, SlabRouter bytes, quantising format default and balanced) and observed through store scan/get AND RelationalEngine/GraphEngine/VectorEngine reads; temp-prefix case = destination A + every (small) or sampled prefix of B's bytes as the sibling temp file, then the renamed file, plus a real save over a longer leftover temp file; resnapshot case = image, 1-3 changes of random kind (relational rows through the slab, new table, clear(), graph node, raw put, delete rows), image again after each change, restored and compared with the live store. Distinct = hash of key set x seed; non-trivial = at least 3 keys (round trip) / A and B differ (crash). The relational slab (router().relations) of a store is, in a third of the stores, additionally given tables with a random multi-step history (create_index on the empty table / between / after the rows and on nullable or later-added Int columns, inserts with NULLs, batch inserts, deletes, update_row and restore_row on indexed columns, restore_deleted_row, add/drop column, drop table) and is observed through all its public reads: schema, live rows, row_count and every non-empty answer of index_lookup / index_range (4 operators) / index_between over every Int column for the keys {i64::MIN,-3,-1,0,1,2,7,15,42,i64::MAX} + the values in the rows; original and reloaded slab must answer alike. cfg-router case = SlabRouter::with_config with embedding_dim from {1..600, dense around 128/129 and 255/256/257} (cache capacity and graph merge threshold varied too) holding 1..40 (thorough ..300) emb: entries whose slab vector is dense-random / dense-low-rank / dense with NaN, inf, -0.0, subnormals / sparse / exactly half zero / one more than half non-zero / all-zero / one-hot, rewritten, replaced by vectors of another dimension, deleted and put again, plus other keys, a relational slab history, graph slab edges and blob chunks; round-tripped through to_bytes/from_bytes, save_to_file/load_from_file, save_v3_uncompressed/snapshot::load and snapshot()/restore(); observed through scan/get, the relational slab reads, graph slab and blob log; distinct = hash of (dimension, class of every slab vector) x seed, non-trivial = at least one slab vector. keyspace case = TensorStore::new() with 1..150 (thorough ..2 000) keys of arbitrary shape - the empty key, first character of any UTF-8 class (any ASCII byte, U+0080..U+00FF, 2-/3-/4-byte characters, class boundaries) bare or behind emb: / _cache: / node: / edge: / table: / _blob:meta:, tails from a small per-case pool so that keys share prefixes, some 40-440 characters long - overwritten, deleted, put again; reloaded through 9 paths (file, file + Bloom filter, SlabRouter::load_from_file, v3 uncompressed, bytes->fresh store, bytes->Bloom-filter store, SlabRouter::from_bytes, snapshot()/restore(), quantising format) and asked ALL public key reads: scan(\"\"), get + exists of up to 300 present keys and of absent keys (one character more / less, deleted keys, fresh random keys), scan(prefix) + scan_count(prefix) for the 1-/2-/3-character prefixes, class prefixes and whole keys of up to 40 keys and for 34 one-character probes of every UTF-8 class; every answer must equal the original's (quantising format: all but the get values); distinct = hash of the key listing x seed, non-trivial = at least one key with a non-ASCII first character. The same reads (16 keys, exists / scan / scan_count) are part of every observation of the roundtrip, cfg-router, temp-prefix and resnapshot cases, whose raw-key generators include such keys. slab-capacity case = SlabRouter::with_config with embedding_dim from {384..12 000}, blob segment size {48 B, 256 B, 1 KiB, 64 MiB} and cache capacity {2, 8, 64, 10 000} (case 0 of every run: TensorStore::new()) filled with k x chunk + d slab vectors, k in {0,1,2,(3)} and d in {-1,0,1,2,<40,<chunk/2} where chunk = the number of vectors per 4Mi-float chunk (10 922 at dimension 384), a few more first and then deleted, late keys reusing the freed slots, in-place rewrites, emb: keys without a slab vector, up to 40 _cache: keys, plain keys and up to 25 blob chunks of 1..1 400 bytes; round-tripped through to_bytes/from_bytes, save_to_file/load_from_file, save_v3_uncompressed/snapshot::load, snapshot()/restore() (store: save_snapshot/load_snapshot, load_snapshot_with_bloom_filter, snapshot_bytes/restore_from_bytes); compared per key: the fields, the vector read from the embedding slab itself (router().index.get + router().embeddings.get; bit-exact), and the blob chunks; a load that panics is a violation (load-panics); distinct = (dimension, vectors, holder) x seed, non-trivial = the original slab had grown beyond the capacity of a fresh one. value-text case = TensorStore::new() with 1..30 (thorough ..200) keys of every key class (plain, emb:, _cache:, node:, edge:, table:, _blob:meta:) whose 1-6 fields are String scalars (7 of 12), Bytes scalars, Pointer / Pointers and now and then field NAMES drawn from a text generator: a marker (bytes:, base64:, hex:, 0x, str:, ptr:, int:, null:, json:, node:, ... 44 of them) followed by nothing / a decimal number / even- or odd-length hex in either case / base64-looking text / hex with one foreign character / arbitrary text; the same behind other text; the text forms formats derive from values of other kinds (bytes:<len>, bytes:<hex>, hex, Debug of a byte vector or of a scalar, 0x<HEX>, lossy UTF-8 of random bytes); 40 literals (null, true, NaN, -0, numbers beyond i64, JSON, Debug renderings); 30 whitespace / NUL / BOM / composed-vs-decomposed / invisible-character texts; 24 escape sequences and separators; lengths 127..65 537 bytes of 1-/2-/4-byte characters and NUL; plus, in half of the cases each, a relational slab table with such texts in String / Bytes / Json cells and graph nodes (GraphEngine::create_node) with such texts in String / Bytes / List properties; reloaded through file, v3 uncompressed, bytes->fresh store, SlabRouter::from_bytes and the quantising format (default and balanced) and compared TYPED per key and field: same kind (null/bool/int/float/string/bytes/vector/sparse/pointer/pointers) and same content, signature <kind>-comes-back-as-<kind> / <kind>-content-differs / <kind>-field-missing / field-added, relational cells and graph properties as the slab / the graph engine read them; distinct = hash of all entries x seed, non-trivial = at least one String scalar.",
         assumptions: vec![
             "384-dim slab vectors with >= 55% zeros are expected bit-exact (the slab snapshot's sparse path); dense low-TT-rank 384-dim vectors are held to the documented <1% relative L2 error; dense random 384-dim vectors are not judged (no bound is documented when the rank cap binds)".into(),
             "quantising format: vector payloads are not judged beyond presence; everything else must be exact".into(),
@@ -2258,6 +2686,7 @@ fn main() {
             "relational slab: the secondary-index reads are compared between the original and the reloaded slab (same row ids for the same key/range), not against a model of what an index should contain - postings that update_row left stale in the original are expected to be equally stale after the round trip".into(),
             "key reads (keyspace part and the key reads inside every observation): only answers of the ORIGINAL store are the reference - scan(prefix) of the reloaded store must list what scan(prefix) of the original lists, whatever that is (what the original's scan(prefix) returns for a given prefix is not judged here); the quantising format is held to the same key listing / exists / prefix answers, its values are judged by the roundtrip part only".into(),
             "slab-capacity part: all slab vectors are of the exactly stored class (>= 55 % zeros as +0.0, non-zero magnitudes >= 0.01), so bit-identity is demanded at every dimension; entity ids are not compared (restore_from_bytes assigns new ones), the vector the slab holds for a key is; the chunk size 4Mi floats is only used to aim the workload at the boundaries - the evidence counts the slabs whose public capacity() actually grew; statistics (len, chunk/segment counts) are not compared".into(),
+            "value-text part: the original store's own get() is the reference for every field (a text an engine refuses is simply not stored); the quantising format is held to the same typed equality for every scalar, pointer and field name - the only tolerated difference there is the known finding, reported under its own signature roundtrip:quantising:field-differs:y if and only if a Bytes scalar comes back as exactly the string bytes:<len> (any other fate of a Bytes scalar, and every change of a String scalar, has its own signature); graph nodes with a byte-string property are, for the quantising format only, judged through their raw fields and not a second time through the graph engine; tables are not compared for the quantising format (known finding table-rows-differ, reported by the roundtrip part); no vectors in this part".into(),
             "for restore_from_bytes, blob-log chunks (router().blobs) and the graph slab (router().graph) are outside the comparison (the live store keeps its own); the relational slab is inside".into(),
         ],
         floors: if args.replay.is_some() {
@@ -2267,11 +2696,12 @@ fn main() {
                 "cfg-router" => vec![("cfg_key_reads_compared", 5_000), ("cfg_router_cases", 40), ("cfg_dense_vectors_of_dim_129_to_255_held_to_bit_identity", 200), ("cfg_exact_slab_vectors_compared", 1_000), ("cfg_slab_index_answers_compared", 1_000)],
                 "roundtrip" => vec![("keys_compared", 2_000), ("exact_slab_vectors_compared", 100), ("slab_index_answers_compared", 1_000), ("key_reads_compared", 5_000)],
                 "keyspace" => vec![("ks_cases", 20), ("ks_point_reads_compared", 5_000), ("ks_prefix_reads_compared", 5_000), ("ks_non_ascii_leading_keys_read_back", 500), ("ks_non_ascii_after_class_prefix_keys_read_back", 200)],
+                "value-text" => vec![("vt_cases", 40), ("vt_string_scalars_compared", 5_000), ("vt_quantising_string_scalars_compared", 2_500), ("vt_texts_marker", 500), ("vt_texts_derived-from-another-kind", 250), ("vt_bytes_scalars_compared", 2_000), ("vt_pointer_fields_compared", 2_000), ("vt_relational_text_rows_compared", 500), ("vt_graph_nodes_with_text_compared", 500)],
                 "slab-capacity" => vec![("cap_cases", 4), ("cap_default_dimension_stores", 1), ("cap_embedding_slabs_grown_beyond_fresh_capacity", 3), ("cap_slab_vectors_compared", 20_000), ("cap_blob_chunks_compared", 20)],
                 _ => vec![("evaluations", 1)],
             }
         } else {
-            vec![("evaluations", 60), ("keys_compared", 2_000), ("table_rows_compared", 500), ("graph_entities_compared", 500), ("exact_slab_vectors_compared", 100), ("temp_prefix_images", 500), ("max:store_entries", 2_000), ("resnapshots_compared", 200), ("saves_over_stale_temp_file", 20), ("slab_index_answers_compared", 1_000), ("cfg_router_cases", 40), ("cfg_dense_vectors_of_dim_129_to_255_held_to_bit_identity", 200), ("cfg_dense_vectors_below_256_held_to_bit_identity", 500), ("cfg_exact_slab_vectors_compared", 1_000), ("cfg_slab_index_answers_compared", 1_000), ("key_reads_compared", 5_000), ("cfg_key_reads_compared", 5_000), ("ks_cases", 20), ("ks_point_reads_compared", 5_000), ("ks_prefix_reads_compared", 5_000), ("ks_non_ascii_leading_keys_read_back", 500), ("ks_non_ascii_after_class_prefix_keys_read_back", 200), ("cap_cases", 4), ("cap_default_dimension_stores", 1), ("cap_embedding_slabs_grown_beyond_fresh_capacity", 3), ("cap_slab_vectors_compared", 20_000), ("cap_blob_chunks_compared", 20)]
+            vec![("evaluations", 60), ("keys_compared", 2_000), ("table_rows_compared", 500), ("graph_entities_compared", 500), ("exact_slab_vectors_compared", 100), ("temp_prefix_images", 500), ("max:store_entries", 2_000), ("resnapshots_compared", 200), ("saves_over_stale_temp_file", 20), ("slab_index_answers_compared", 1_000), ("cfg_router_cases", 40), ("cfg_dense_vectors_of_dim_129_to_255_held_to_bit_identity", 200), ("cfg_dense_vectors_below_256_held_to_bit_identity", 500), ("cfg_exact_slab_vectors_compared", 1_000), ("cfg_slab_index_answers_compared", 1_000), ("key_reads_compared", 5_000), ("cfg_key_reads_compared", 5_000), ("ks_cases", 20), ("ks_point_reads_compared", 5_000), ("ks_prefix_reads_compared", 5_000), ("ks_non_ascii_leading_keys_read_back", 500), ("ks_non_ascii_after_class_prefix_keys_read_back", 200), ("cap_cases", 4), ("cap_default_dimension_stores", 1), ("cap_embedding_slabs_grown_beyond_fresh_capacity", 3), ("cap_slab_vectors_compared", 20_000), ("cap_blob_chunks_compared", 20), ("vt_cases", 40), ("vt_string_scalars_compared", 5_000), ("vt_quantising_string_scalars_compared", 2_500), ("vt_texts_marker", 500), ("vt_texts_derived-from-another-kind", 250), ("vt_bytes_scalars_compared", 2_000), ("vt_pointer_fields_compared", 2_000), ("vt_relational_text_rows_compared", 500), ("vt_graph_nodes_with_text_compared", 500)]
         },
         exhaustive: false,
     };
